@@ -109,6 +109,18 @@ def worker(unit, emit):
                        {'m': name, 'w': ed, 'how': 'p3 payload %r + %s' % (pl, fn), 'site': g['site'] or rv['site'],
                         'outcome': rv['cls'] or 'accepted'})
             emit.count('p3')
+            # valid numbers found by SEARCHING the check position(s) over the check alphabet (not by the generator): these are
+            # the numbers on which a validator that is laxer than its generator shows (every residue class gets visited)
+            if n2 == 1 and not is_synth and len(synth) < p['synth']:
+                for a in row.get('alphabet', digits):
+                    cand = w[:lo2] + a + w[lo2 + 1:]
+                    if cand in vals or cand in synth or cand == ed:
+                        continue
+                    rc = lib.call(mod.validate, cand, **vopts)
+                    if rc['k'] == 'ret' and rc['t'] == 'str' and lib.from_cps(rc['v']) == cand:
+                        synth.append(cand)
+                        queue.append(cand)
+                        emit.count('synthesised_valid_by_search')
             if rv['k'] == 'ret' and rv['t'] == 'str' and lib.from_cps(rv['v']) == ed and ed not in vals and ed not in synth \
                     and len(synth) < p['synth']:
                 synth.append(ed)
